@@ -171,6 +171,7 @@ type c10world struct {
 	lastDiff  *state.IdentityStateDiff
 	lastVals  []c10diffval
 	incSound  bool // inc was loaded from the tree and only well-formed diffs were applied since
+	pending   int  // tree changes (Commit / AddDiff) not yet applied to inc
 	univ      []uint32
 	failure   string
 	sig       string
@@ -321,6 +322,9 @@ func (w *c10world) query(v *validators.ValidatorsCache, args []string) (ans stri
 		return strconv.Itoa(v.PoolSizeExceptNodes(c10addr(uint32(p)), ex))
 	case "com":
 		// q X com <god> <limit> <perm> # <seedkey> <round> <step>   (the part after # is ignored by the model)
+		if len(args) < 8 {
+			return "bad-op"
+		}
 		limit, _ := strconv.Atoi(args[2])
 		sk, _ := strconv.ParseUint(args[5], 10, 32)
 		round, _ := strconv.ParseUint(args[6], 10, 64)
@@ -544,6 +548,7 @@ func (w *c10world) exec(op string) (ans string) {
 			vals = append(vals, dv)
 		}
 		w.lastDiff, w.lastVals = diff, vals
+		w.pending++
 		w.afterTreeChange("Commit(true)", vals, before, true)
 		return c10showDiff(vals)
 	case "adddiff":
@@ -566,6 +571,7 @@ func (w *c10world) exec(op string) (ans string) {
 			return "err"
 		}
 		w.lastDiff, w.lastVals = diff, vals
+		w.pending++
 		w.afterTreeChange("AddDiff", vals, before, false)
 		return "ok"
 	case "tree":
@@ -573,7 +579,7 @@ func (w *c10world) exec(op string) (ans string) {
 	case "load":
 		if f[1] == "inc" {
 			w.inc.Load()
-			w.incPanic, w.incSound = false, true
+			w.incPanic, w.incSound, w.pending = false, true, 0
 		} else {
 			w.fresh = validators.NewValidatorsCache(w.s, c10addr(c10god))
 			w.fresh.Load()
@@ -593,8 +599,12 @@ func (w *c10world) exec(op string) (ans string) {
 		if w.incPanic {
 			return "panic"
 		}
-		if !c10diffWF(w.lastVals) {
-			w.incSound = false
+		if !c10diffWF(w.lastVals) || w.pending > 1 || w.lastDiff == nil {
+			w.incSound = false // outside the claim: non-WF diff, or a diff was skipped
+		}
+		w.pending = 0
+		if w.lastDiff == nil {
+			w.lastDiff = &state.IdentityStateDiff{}
 		}
 		func() {
 			defer func() {
@@ -623,10 +633,40 @@ func (w *c10world) exec(op string) (ans string) {
 	return "bad-op"
 }
 
+// orderOK is oracle (c): sortedValidators strictly descending, every pool's delegator list strictly ascending
+// (committee selection indexes into the former, FindSubIdentity into the latter).
+func (w *c10world) orderOK(which string, v *validators.ValidatorsCache) {
+	sv := v.VerifSortedValidators()
+	for i := 1; i < len(sv); i++ {
+		if strings.Compare(string(sv[i-1][:]), string(sv[i][:])) <= 0 {
+			w.fail("C10:sortedValidators-not-strictly-descending", fmt.Sprintf("%s cache: %s", which, c10list(sv, false)))
+		}
+	}
+	for _, a := range w.univ {
+		if dels, _, ok := v.VerifPool(c10addr(a)); ok {
+			if len(dels) == 0 {
+				w.fail("C10:empty-pool-kept", fmt.Sprintf("%s cache: pool %d has no delegators", which, a))
+			}
+			for i := 1; i < len(dels); i++ {
+				if strings.Compare(string(dels[i-1][:]), string(dels[i][:])) >= 0 {
+					w.fail("C10:pool-delegators-not-strictly-ascending", fmt.Sprintf("%s cache: pool %d: %s", which, a, c10list(dels, false)))
+				}
+			}
+		}
+	}
+}
+
 // compare is oracle (a): called after every rebuild of `fresh`.
 func (w *c10world) compare() {
+	w.orderOK("rebuilt", w.fresh)
 	if w.incPanic {
 		return
+	}
+	if w.incSound && w.pending == 0 {
+		w.orderOK("incremental", w.inc)
+	}
+	if w.pending != 0 {
+		return // the incremental cache has not been given the last diff yet
 	}
 	a, b := w.safeSnapshot(w.inc), w.safeSnapshot(w.fresh)
 	if w.incSound {
